@@ -96,6 +96,10 @@ class _Tr:
             body, env2 = inl
             if len(body) == 1 and isinstance(body[0], ast.Return) and body[0].value is not None:
                 return self.bexp(body[0].value, env2)
+        if isinstance(node, ast.IfExp):
+            c = self.bexp(node.test, env)
+            return ".or (.and (%s) (%s)) (.and (.not (%s)) (%s))" % (c, self.bexp(node.body, env), c,
+                                                                   self.bexp(node.orelse, env))
         if isinstance(node, ast.Constant) and isinstance(node.value, bool):
             return ".const %s" % ("true" if node.value else "false")
         if isinstance(node, ast.BoolOp):
@@ -277,6 +281,17 @@ class _Tr:
                 return tgt.attr
         return None
 
+    @staticmethod
+    def only_binds(body):
+        """{name: value} if the block consists only of single assignments to distinct local names, else None."""
+        out = {}
+        for st in body:
+            if not (isinstance(st, ast.Assign) and len(st.targets) == 1 and isinstance(st.targets[0], ast.Name)
+                    and st.targets[0].id not in out):
+                return None
+            out[st.targets[0].id] = st.value
+        return out or None
+
     def opaque(self, st):
         s = _src(st)
         self.unknowns.append(s)
@@ -338,6 +353,12 @@ class _Tr:
                     continue
                 out.append(self.opaque(st))
                 continue
+            if isinstance(st, ast.If) and st.orelse and self.only_binds(st.body) is not None \
+                    and self.only_binds(st.body).keys() == self.only_binds(st.orelse).keys():
+                a, b = self.only_binds(st.body), self.only_binds(st.orelse)
+                for name in a:
+                    env[name] = None if name in env else ast.IfExp(test=st.test, body=a[name], orelse=b[name])
+                continue
             if isinstance(st, ast.If):
                 c = self.bexp(st.test, env)
                 t = self.stmts(st.body, env)
@@ -356,7 +377,13 @@ class _Tr:
         return out
 
     # ---------------------------------------------------------------- finalize
+    fenv = {}
+
     def fexp(self, node):
+        depth = 0
+        while isinstance(node, ast.Name) and self.fenv.get(node.id) is not None and depth < 10:
+            node = self.fenv[node.id]
+            depth += 1
         if (isinstance(node, ast.Call) and isinstance(node.func, ast.Attribute) and isinstance(node.func.value, ast.Name)
                 and node.func.value.id == "self" and node.func.attr in self.methods and not node.args and not node.keywords):
             fn = self.methods[node.func.attr]
@@ -413,65 +440,76 @@ class _Tr:
         return out
 
     def finalize(self, fn):
+        """Order-insensitive reading of finalize: the default title/message `if`, the hide_correctness assignment,
+        boolean locals, the branch between the 'complete' group and `score = combine_scores(...)` (either polarity),
+        `correct := bool(correct)`, `return self`."""
+        from pedal.core.commands import set_correct
         body = [s for s in fn.body if not (isinstance(s, ast.Expr) and isinstance(s.value, ast.Constant))]
-        shape = True
+        self.fenv = {}
         default_cond = complete_cond = '.unknown "missing"'
         hide_keys = []
-        try:
-            s0, s1, s2, s3, s4 = body
-            # 1. default title/message
-            a0 = self.self_assigns(s0.body) if isinstance(s0, ast.If) and not s0.orelse else None
-            if a0 is None or set(a0) != {"title", "message"}:
-                shape = False
-            else:
-                default_cond = self.fexp(s0.test)
-                okt, vt = self.const_value(a0["title"])
-                okm, vm = self.const_value(a0["message"])
-                shape = shape and okt and okm and vt == self.Final.DEFAULT_NO_FEEDBACK_TITLE \
-                    and vm == self.Final.DEFAULT_NO_FEEDBACK_MESSAGE
-            # 2. hide_correctness := suppressions.get(k1, suppressions.get(k2, False))
-            a1 = self.self_assigns([s1])
-            if a1 is None or set(a1) != {"hide_correctness"}:
-                shape = False
-            else:
-                v = a1["hide_correctness"]
+        seen = {"default": False, "hide": False, "branch": False, "boolcast": False, "ret": False}
+        shape = True
+
+        def is_complete_group(a):
+            if a is None or set(a) != {"title", "message", "score", "success", "correct"}:
+                return False
+            okt, vt = self.const_value(a["title"])
+            okm, vm = self.const_value(a["message"])
+            oks, vs = self.const_value(a["score"])
+            okc, vc = self.const_value(a["correct"])
+            oku, vu = self.const_value(a["success"])
+            return (okt and okm and oks and okc and oku and vt == set_correct.title
+                    and vm == set_correct.message_template and vs == 1 and vs is not True and vc is True and vu is True)
+
+        def is_combine(a):
+            return a is not None and set(a) == {"score"} and _src(a["score"]) == "combine_scores(self._scores)"
+
+        for st in body:
+            if isinstance(st, ast.Assign) and len(st.targets) == 1 and isinstance(st.targets[0], ast.Name):
+                name = st.targets[0].id
+                self.fenv[name] = None if name in self.fenv else st.value
+                continue
+            if isinstance(st, ast.Return):
+                seen["ret"] = _src(st.value) == "self" if st.value is not None else False
+                continue
+            a = self.self_assigns([st]) if isinstance(st, ast.Assign) else None
+            if a is not None and set(a) == {"hide_correctness"}:
+                if seen["branch"]:
+                    shape = False          # must be assigned before it is read
+                v = a["hide_correctness"]
                 while (isinstance(v, ast.Call) and _src(v.func) == "self.suppressions.get" and len(v.args) == 2
                        and isinstance(v.args[0], ast.Constant) and isinstance(v.args[0].value, str)):
                     hide_keys.append(v.args[0].value)
                     v = v.args[1]
-                if not (isinstance(v, ast.Constant) and v.value is False and hide_keys):
-                    shape = False
-            # 3. the complete branch
-            if not isinstance(s2, ast.If):
-                shape = False
-            else:
-                complete_cond = self.fexp(s2.test)
-                a2 = self.self_assigns(s2.body)
-                ae = self.self_assigns(s2.orelse)
-                from pedal.core.commands import set_correct
-                if a2 is None or set(a2) != {"title", "message", "score", "success", "correct"}:
-                    shape = False
-                else:
-                    okt, vt = self.const_value(a2["title"])
-                    okm, vm = self.const_value(a2["message"])
-                    oks, vs = self.const_value(a2["score"])
-                    okc, vc = self.const_value(a2["correct"])
-                    oku, vu = self.const_value(a2["success"])
-                    shape = shape and okt and okm and oks and okc and oku and vt == set_correct.title \
-                        and vm == set_correct.message_template and vs == 1 and vs is not True \
-                        and vc is True and vu is True
-                if ae is None or set(ae) != {"score"} or _src(ae["score"]) != "combine_scores(self._scores)":
-                    shape = False
-            # 4. correct := bool(correct)
-            a3 = self.self_assigns([s3])
-            if a3 is None or set(a3) != {"success", "correct"} or _src(a3["correct"]) != "bool(self.correct)":
-                shape = False
-            if not (isinstance(s4, ast.Return) and _src(s4.value) == "self"):
-                shape = False
-        except ValueError:
+                seen["hide"] = isinstance(v, ast.Constant) and v.value is False and bool(hide_keys)
+                continue
+            if a is not None and set(a) == {"success", "correct"} and _src(a["correct"]) == "bool(self.correct)":
+                seen["boolcast"] = seen["branch"]      # after the branch
+                continue
+            if isinstance(st, ast.If):
+                tb, eb = self.self_assigns(st.body), self.self_assigns(st.orelse) if st.orelse else None
+                if not st.orelse and tb is not None and set(tb) == {"title", "message"} and not seen["default"]:
+                    if seen["branch"]:
+                        shape = False      # the complete branch overwrites the default texts, not vice versa
+                    default_cond = self.fexp(st.test)
+                    okt, vt = self.const_value(tb["title"])
+                    okm, vm = self.const_value(tb["message"])
+                    seen["default"] = bool(okt and okm and vt == self.Final.DEFAULT_NO_FEEDBACK_TITLE
+                                           and vm == self.Final.DEFAULT_NO_FEEDBACK_MESSAGE)
+                    continue
+                if is_complete_group(tb) and is_combine(eb) and not seen["branch"]:
+                    complete_cond = self.fexp(st.test)
+                    seen["branch"] = True
+                    continue
+                if is_combine(tb) and is_complete_group(eb) and not seen["branch"]:
+                    complete_cond = ".not (%s)" % self.fexp(st.test)
+                    seen["branch"] = True
+                    continue
             shape = False
+        shape = shape and all(seen.values())
         if not shape:
-            self.unknowns.append("finalize: shape not recognised")
+            self.unknowns.append("finalize: shape not recognised (%s)" % ", ".join(k for k, v in seen.items() if not v))
         return default_cond, complete_cond, hide_keys, shape
 
 
